@@ -566,6 +566,123 @@ def tdDeser (l : List Char) : Except Err TD :=
       | some d, some (ds, k) => mkTD d (Nat.ofDigitChars 10 h 0) (Nat.ofDigitChars 10 m 0) ds k
       | _, _ => .error .value
 
+/-! ### `bytes` / `bytearray`: `b64encode(value).decode()` and `b64decode(text)` (standard alphabet, padding)
+
+Bytes are `Nat`s below 256.  `b64decode` is `binascii.a2b_base64` in its default non-strict mode: characters
+outside the alphabet are discarded, a completed pad sequence ends the input, leftover sextets are an error
+(`binascii.Error`, a `ValueError`); a non-ASCII text is a `ValueError` as well. -/
+
+def b64Alphabet : List Char := "ABCDEFGHIJKLMNOPQRSTUVWXYZabcdefghijklmnopqrstuvwxyz0123456789+/".toList
+
+def b64Char (n : Nat) : Char := b64Alphabet.getD n 'A'
+
+def b64Val (c : Char) : Option Nat :=
+  let i := b64Alphabet.idxOf c
+  if i < 64 then some i else none
+
+/-- `bytes_serializer` -/
+def b64encode : List Nat → List Char
+  | [] => []
+  | [a] => [b64Char (a / 4), b64Char (a % 4 * 16), '=', '=']
+  | [a, b] => [b64Char (a / 4), b64Char (a % 4 * 16 + b / 16), b64Char (b % 16 * 4), '=']
+  | a :: b :: c :: rest =>
+    b64Char (a / 4) :: b64Char (a % 4 * 16 + b / 16) :: b64Char (b % 16 * 4 + c / 64) :: b64Char (c % 64) :: b64encode rest
+
+/-- decoder state of `a2b_base64`: position in the quad, left-over bits, pads seen since the last data
+character, output so far -/
+structure B64St where
+  quad : Nat
+  left : Nat
+  pads : Nat
+  out : List Nat
+deriving DecidableEq, Repr
+
+def b64Go (st : B64St) : List Char → Except Err (List Nat)
+  | [] => if st.quad = 0 then .ok st.out else .error .value
+  | ch :: rest =>
+    if ch = '=' then
+      if 2 ≤ st.quad ∧ 4 ≤ st.quad + (st.pads + 1) then .ok st.out
+      else b64Go { st with pads := if 2 ≤ st.quad then st.pads + 1 else st.pads } rest
+    else match b64Val ch with
+      | none => b64Go st rest
+      | some v =>
+        if st.quad = 0 then b64Go ⟨1, v, 0, st.out⟩ rest
+        else if st.quad = 1 then b64Go ⟨2, v % 16, 0, st.out ++ [(st.left * 4 + v / 16) % 256]⟩ rest
+        else if st.quad = 2 then b64Go ⟨3, v % 4, 0, st.out ++ [(st.left * 16 + v / 4) % 256]⟩ rest
+        else b64Go ⟨0, 0, 0, st.out ++ [(st.left * 64 + v) % 256]⟩ rest
+
+/-- `bytes_deserializer` on a text -/
+def b64decode (s : List Char) : Except Err (List Nat) :=
+  if s.all (fun c => c.toNat < 128) then b64Go ⟨0, 0, 0, []⟩ s else .error .value
+
+/-! ### `uuid.UUID`: `str(u)` and `UUID(text)` -/
+
+/-- `'%x'` digit -/
+def hexDigitL (n : Nat) : Char := if n < 10 then Char.ofNat (48 + n) else Char.ofNat (87 + n)
+
+/-- the `k` low hexadecimal digits of `n`, most significant first (`'%0kx'`) -/
+def hexFixed : Nat → Nat → List Char
+  | 0, _ => []
+  | k + 1, n => hexFixed k (n / 16) ++ [hexDigitL (n % 16)]
+
+/-- `UUID.__str__` of the 128-bit value `n`: `'%032x'` cut 8-4-4-4-12 -/
+def uuidStr (n : Nat) : List Char :=
+  hexFixed 8 (n / 16 ^ 24) ++ '-' :: (hexFixed 4 (n / 16 ^ 20) ++ '-' :: (hexFixed 4 (n / 16 ^ 16) ++ '-' ::
+    (hexFixed 4 (n / 16 ^ 12) ++ '-' :: hexFixed 12 n)))
+
+/-- `str.replace(p, "")`: non-overlapping occurrences from the left (`skip` = characters of a match still to drop) -/
+def removeAllAux (p : List Char) : Nat → List Char → List Char
+  | _, [] => []
+  | skip + 1, _ :: r => removeAllAux p skip r
+  | 0, c :: r => if p.isPrefixOf (c :: r) ∧ p ≠ [] then removeAllAux p (p.length - 1) r else c :: removeAllAux p 0 r
+
+def removeAll (p : String) (l : List Char) : List Char := removeAllAux p.toList 0 l
+
+/-- `str.strip(chars)` -/
+def stripChars (p : Char → Bool) (l : List Char) : List Char :=
+  ((l.dropWhile p).reverse.dropWhile p).reverse
+
+def isHexDigit (c : Char) : Bool :=
+  c.isDigit || (97 ≤ c.toNat && c.toNat ≤ 102) || (65 ≤ c.toNat && c.toNat ≤ 70)
+
+def hexValC (c : Char) : Nat :=
+  if c.isDigit then c.toNat - 48 else if 97 ≤ c.toNat then c.toNat - 87 else c.toNat - 55
+
+/-- `digit ("_"? digit)*` for an arbitrary digit predicate → the digits -/
+def stripUSP (p : Char → Bool) : List Char → Option (List Char)
+  | [] => none
+  | [c] => if p c then some [c] else none
+  | c :: '_' :: r => if p c then (stripUSP p r).map (c :: ·) else none
+  | c :: r => if p c then (stripUSP p r).map (c :: ·) else none
+
+def ofHexDigits (l : List Char) : Nat := l.foldl (fun acc c => 16 * acc + hexValC c) 0
+
+/-- optional `0x` / `0X` prefix (an underscore may follow it) -/
+def dropHexPrefix : List Char → List Char
+  | '0' :: x :: r =>
+    if x = 'x' ∨ x = 'X' then (match r with
+      | '_' :: r' => r'
+      | _ => r)
+    else '0' :: x :: r
+  | b => b
+
+/-- `int(text, 16)` -/
+def readPyIntHex (s : List Char) : Option Int :=
+  let t := splitSign (numStrip s)
+  let body := dropHexPrefix t.2
+  (stripUSP isHexDigit body).map fun ds =>
+    let n : Int := (ofHexDigits ds : Nat)
+    if t.1 then -n else n
+
+/-- `UUID(text)`: the 128-bit value -/
+def uuidDeser (text : List Char) : Except Err Nat :=
+  let h := removeAll "uuid:" (removeAll "urn:" text)
+  let h := (stripChars (fun c => c = '{' || c = '}') h).filter (· ≠ '-')
+  if h.length ≠ 32 then .error .value
+  else match readPyIntHex h with
+    | none => .error .value
+    | some i => if 0 ≤ i ∧ i < 2 ^ 128 then .ok i.toNat else .error .value
+
 /-! ### `SecretStr`, `Decimal` -/
 
 /-- `SecretStr.__str__` -/
